@@ -64,12 +64,14 @@ ALL_DEFAULT = {l: "default" for l in ("script", "system", "network", "species", 
 EFF_DEFAULT = {l: "D" for l in ALL_DEFAULT}
 
 
-def close_vec(a, b, rtol=1e-9):
+def close_vec(a, b, rtol=1e-9, atol=None):
+    """atol: per-entry (or scalar) absolute tolerance = 1e-9 x the gross magnitude of the terms the entry is made of"""
     if len(a) != len(b):
         return False
     a, b = np.array(a), np.array(b)
-    scale = max(float(np.max(np.abs(a))) if len(a) else 0.0, 1e-300)
-    return bool(np.all(np.abs(a - b) <= rtol * np.maximum(np.abs(a), np.abs(b)) + 1e-12 * scale))
+    if atol is None:
+        atol = 1e-12 * max(float(np.max(np.abs(a))) if len(a) else 0.0, 1e-300)
+    return bool(np.all(np.abs(a - b) <= rtol * np.maximum(np.abs(a), np.abs(b)) + atol))
 
 
 def run(tier, selftest=False, only=None):
@@ -91,10 +93,11 @@ def run(tier, selftest=False, only=None):
     allsys = list(itertools.product(sc["space"], sc["time"], sc["quantity"]))
     dt = Fr(1, 128)
     times = {"dt": dt, "ts": [Fr(0), dt * Fr(5, 2), dt * Fr(13, 2)], "interval": dt * 3}
-    jobs, meta = [], []
+    jobs, meta, models = [], [], []
     nmodels, per = (40, 12) if tier == "quick" else (150, 16)
     for mi in range(nmodels):
         m = serial.random_phys_model(rng, max_cells=3, max_order=3)
+        models.append(m)
         ref = serial.Describer(sc, {"S1": serial.D, "S2": serial.D}, rng, explicit_p=0.0).script(m, ALL_DEFAULT, EFF_DEFAULT, dict(times, seed=5))
         jobs.append(ref)
         meta.append(("ref", mi, None, None))
@@ -106,6 +109,7 @@ def run(tier, selftest=False, only=None):
             meta.append(("var", mi, t["decl"], systems))
     if tier == "thorough":      # every unit system at every single level
         m = serial.random_phys_model(rng, max_cells=2, max_order=2)
+        models.append(m)
         ref = serial.Describer(sc, {"S1": serial.D, "S2": serial.D}, rng, explicit_p=0.0).script(m, ALL_DEFAULT, EFF_DEFAULT, dict(times, seed=5))
         jobs.append(ref)
         meta.append(("ref", nmodels, None, None))
@@ -129,6 +133,20 @@ def run(tier, selftest=False, only=None):
             if r[0] != "ok":
                 raise MachineryError("reference description failed: %s" % (r,))
             refs[mi] = r[1]
+    # gross magnitude of the terms of the rate law at the initial state, from the specification (Eval_RD)
+    from .. import rd_eval, rd_law
+    cs = []
+    for mi, m in enumerate(models):
+        x0 = refs[mi]["x0"]
+        nC = m.ncells()
+        st = [[Fr(x0[s * nC + i]).limit_denominator(10 ** 6) for i in range(nC)] for s in range(len(m.species))]
+        cs.append((m, st))
+    spec = rd_eval.evaluate("flaw", rd_law.spec_items(cs), rep)
+    gross = {}
+    for mi, ((m, st), sp) in enumerate(zip(cs, spec)):
+        nC, nS = m.ncells(), len(m.species)
+        g = [float(Fr(*sp[0]["gross"][i][s])) for s in range(nS) for i in range(nC)]
+        gross[mi] = (np.array(g), max(max(refs[mi]["x0"]) if refs[mi]["x0"] else 0.0, 1e-300))
     for (kind, mi, decl, systems), d, r in zip(meta, jobs, res):
         if kind == "ref":
             continue
@@ -138,8 +156,10 @@ def run(tier, selftest=False, only=None):
             rep.violation("units", "units:run-" + r[0], dict(tag, info=list(r)))
             continue
         ref, got = refs[mi], r[1]
+        g, xmax = gross[mi]
+        tol = {"x0": 1e-12 * xmax, "dxdt": 1e-9 * g + 1e-12 * float(np.max(g) if len(g) else 0.0), "t": None, "data": 1e-9 * xmax}
         for what in ("x0", "dxdt", "t", "data"):
-            if not close_vec(ref[what], got[what]):
+            if not close_vec(ref[what], got[what], atol=tol[what]):
                 levels = sorted(l for l, v in decl.items() if v in ("S1", "S2"))
                 rep.violation("units", "units:%s-differs" % what,
                               dict(tag, reference=ref[what][:12], got=got[what][:12], explicit_levels=levels))
